@@ -284,6 +284,7 @@ def run(chk):
                           path_condition=norm.fmt_cnf(cl))
     chk.expect_count("C05.cap.stays", len(stays), 2, "stay-paused exits of _resume_msg_queue_reading()")
     hunt2_rules(chk, repo)
+    hunt4_rules(chk, repo)
     # ---- C05.wake ---------------------------------------------------------------------------------------------------
     sr = K.exprs(dr, "$W.set_result(None)")
     if not sr:
@@ -467,6 +468,69 @@ def url_validated(chk, repo, errs, rule):
             chk.ok(rule, t, "the lazily validated host/port split is forced inside the same try (BaseRequest.__init__ and handlers can read it safely)")
         else:
             chk.violation(rule, t, "try: url = URL(...)", "url.host inside the try", "yarl validates host/port lazily: an out-of-range or non-numeric port raises later, in the unprotected part of the request loop")
+
+
+def hunt4_rules(chk, repo):
+    """Rules written after the fourth defect hunt (F235-F238)."""
+    fr = repo.func(PROTO, f"{RH}.finish_response")
+    # ---- C05.once.parsercalls: nothing the request parser raises leaves finish_response() before the response is written ------------------------
+    # feed_eof() / feed_data() of the request parser raise HttpProcessingError (outstanding Content-Length body, bad chunk): finish_response()
+    # is called from every except-branch of _handle_request(), an exception out of it there is not answered by anybody.
+    n = 0
+    for c in [c for c in prog.calls_in(fr.node) if norm.raw(c.func) in ("self._parser.feed_eof", "self._parser.feed_data")]:
+        n += 1
+        caught = set()
+        for w in prog.enclosing(c, (ast.With,)):
+            for it in w.items:
+                ce = it.context_expr
+                if isinstance(ce, ast.Call) and norm.raw(ce.func) in ("suppress", "contextlib.suppress"):
+                    caught |= {norm.raw(a) for a in ce.args}
+        for t_, h in K.enclosing_try_handlers(c):
+            if prog.in_body_of(c, t_, "body"):
+                caught |= set(PC.handler_types(h)) if h.type is not None else {"BaseException"}
+        if caught & {"HttpProcessingError", "Exception", "BaseException"}:
+            chk.ok("C05.once.parsercalls", c, f"finish_response(): `{K.short(c, 40)}` cannot raise HttpProcessingError out of the function")
+        else:
+            chk.violation("C05.once.parsercalls", c, K.short(c, 50), "with suppress(HttpProcessingError):",
+                          "finish_response() ends the tunnel of a refused CONNECT with feed_eof(); when the CONNECT declared a body that has not fully arrived the body parser raises ContentLengthError / TransferEncodingError there - out of the except-branch that was answering the 404: zero bytes are sent and the connection is dropped, while the same request with the body in the same read gets its 404")
+    chk.expect_count("C05.once.parsercalls", n, 2, "request parser calls in finish_response()")
+    # ---- C05.upgrade.mode: installing a payload parser puts the protocol in upgraded mode --------------------------------------------------------------
+    sp = repo.func(PROTO, f"{RH}.set_parser")
+    inst = [a for a in ast.walk(sp.node) if isinstance(a, ast.Assign) and norm.raw(a.targets[0]) == "self._payload_parser"]
+    up = [a for a in ast.walk(sp.node) if isinstance(a, ast.Assign) and norm.raw(a) == "self._upgraded = True"]
+    if inst and up and not list(prog.enclosing(up[0], (ast.If, ast.While, ast.For, ast.Try))):
+        chk.ok("C05.upgrade.mode", up[0], "set_parser(): the connection is in upgraded mode from the moment a WebSocket reader is installed (flow control goes to the reader, not to the HTTP parser)")
+    else:
+        chk.violation("C05.upgrade.mode", sp, "self._payload_parser = parser", "self._upgraded = True",
+                      "the handshake accepts Upgrade values the request parser did not take for an upgrade (`websocket\\xa0`): the reader is installed while _upgraded stays False, the first flow-control pause hits `assert self._payload_parser is not None` in HttpParser.pause_reading, the transport is never paused and the handler loses messages")
+    # ---- C05.drain.retrieved: the shared drain waiter failed by connection_lost() is nobody's unretrieved exception ---------------------------------
+    BP = "aiohttp/base_protocol.py"
+    dh = repo.func(BP, "BaseProtocol._drain_helper")
+    cl = repo.func(BP, "BaseProtocol.connection_lost")
+    shielded = any(M.contains(a, "asyncio.shield($W)") for a in prog.awaits_in(dh.node))
+    fails = [c for c in prog.calls_in(cl.node) if (norm.raw(c.func) == "set_exception" and c.args and norm.raw(c.args[0]) == "waiter") or norm.raw(c.func) == "waiter.set_exception"]
+    marks = [c for c in prog.calls_in(cl.node) if norm.raw(c.func) == "waiter.exception" and fails and c.lineno > fails[0].lineno]
+    if not shielded or not fails:
+        chk.ok("C05.drain.retrieved", cl, "the drain waiter is awaited directly by its senders (nothing can be left behind)") if fails else chk.analysis_error("C05.drain.retrieved: BaseProtocol.connection_lost does not fail the drain waiter")
+    elif marks:
+        chk.ok("C05.drain.retrieved", marks[0], "connection_lost() retrieves the exception it sets on the shared drain waiter (a cancelled sender may have left the waiter without an awaiter)")
+    else:
+        chk.violation("C05.drain.retrieved", fails[0], K.short(fails[0], 50), "waiter.exception()  (after setting it)",
+                      "senders await the shared drain waiter through asyncio.shield(): one that timed out has left it pending with no awaiter; when the peer then resets, connection_lost() sets ConnectionError on it and the loop's exception handler reports `Future exception was never retrieved` for an ordinary client disconnect")
+    # ---- C05.errinfo.text: the 400 for a parse error is built from whatever message the parser gave, also none ----------------------------------------
+    stf = repo.func(PROTO, f"{RH}.start")
+    mk = [c for c in prog.calls_in(stf.node) if norm.raw(c.func) == "HTTPBadRequest" and any(k.arg == "text" for k in c.keywords)]
+    for c in mk:
+        tv = next(k.value for k in c.keywords if k.arg == "text")
+        in_try = any(prog.in_body_of(c, t_, "body") for t_ in prog.enclosing(c, (ast.Try,)))
+        guarded = isinstance(tv, ast.BoolOp) and isinstance(tv.op, ast.Or) and any(isinstance(v, ast.Constant) and v.value is None for v in tv.values)
+        if guarded or in_try:
+            chk.ok("C05.errinfo.text", c, "start(): an empty parser message gives the default 400 text (no call form that warns between popleft() and the try)")
+        else:
+            chk.violation("C05.errinfo.text", c, K.short(c, 60), "text=message.message or None",
+                          "a parse error with an empty message (empty chunk-size line, empty request-target) builds HTTPBadRequest(text='', content_type=...), aiohttp's own deprecated call form: under -W error the warning is raised between popleft() and the try of start() - the task dies, nothing is sent, the transport stays open")
+    if not mk:
+        chk.analysis_error("C05.errinfo.text: HTTPBadRequest(text=...) not found in RequestHandler.start")
 
 
 def hunt2_rules(chk, repo):
